@@ -199,7 +199,12 @@ IMPORT_MODULES = {
     'appends_then_raises': 'import sys\nsys.path.append("/zz/late")\nsys.path.remove("/zz/late")\nraise ValueError("late")\n',
     'prepends_entry': 'import sys\nsys.path.insert(0, "/zz/mine")\nsys.path.remove("/zz/mine")\n',
     'replaces_stdout': 'import sys, io\n_o = sys.stdout\nsys.stdout = io.StringIO()\nsys.stdout = _o\n',
+    # wraps the stream for good at import time (what colour / logging helpers do): after a DOCTEST RUN that imported the
+    # module, sys.stdout is again what it was before that run
+    'wraps_stdout': 'import sys\nclass _W(object):\n    def __init__(self, inner):\n        self.inner = inner\n    def write(self, t):\n        return self.inner.write(t)\n'
+                    '    def flush(self):\n        return self.inner.flush()\nsys.stdout = _W(sys.stdout)\n',
 }
+GLOBAL_EXEC_WRAP = 'import sys\nclass _G(object):\n    def __init__(self, inner):\n        self.inner = inner\n    def write(self, t):\n        return self.inner.write(t)\n    def flush(self):\n        return self.inner.flush()\nsys.stdout = _G(sys.stdout)'
 
 
 def import_cases(ctx):
@@ -230,8 +235,9 @@ def import_cases(ctx):
                 if sorted(after['path']) != sorted(before['path']):
                     problems.append('sys.path entries changed by import_module_from_path(%s, index=%d): added %r removed %r' % (
                         name, index, [x for x in after['path'] if x not in before['path']], [x for x in before['path'] if x not in after['path']]))
-                if after['stdout'] is not before['stdout']:
+                if after['stdout'] is not before['stdout'] and name != 'wraps_stdout':
                     problems.append('sys.stdout changed by import')
+                sys.stdout = before['stdout']
                 expect_err = name in ('raises', 'appends_then_raises')
                 if bool(err) != expect_err:
                     problems.append('import of %s: %s' % (name, 'raised %r' % err if err else 'did not raise'))
@@ -258,7 +264,26 @@ def import_cases(ctx):
                     ctx.violation('import-restores', {'what': 'DocTest.run pre-import of module %s left sys.path changed: added %r' % (
                         name, [x for x in after['path'] if x not in before['path']]), 'module_source': src,
                         'theorem_or_correspondence': 'C12 pre-import in DocTest.run'}, True)
+                if after['stdout'] is not before['stdout']:
+                    ctx.violation('import-restores', {'what': 'after DocTest.run whose pre-import of module %s ran, sys.stdout is not the stream from before the run' % name,
+                                  'module_source': src, 'theorem_or_correspondence': 'C12_stdout_restored on DocTest.run (pre-import outside the captured parts)'}, True)
+                sys.stdout = before['stdout']
                 sys.path[:] = before['path']
+                # code run through the global_exec option is outside the captured parts too
+                if name == 'good' and onpath == 'absent':
+                    ctx.evaluations += 1
+                    ex = doctest_example.DocTest(docsrc='>>> print(1)\n1', lineno=1)
+                    ex.config['global_exec'] = GLOBAL_EXEC_WRAP
+                    before = snapshot()
+                    try:
+                        ex.run(on_error='return', verbose=0)
+                    except Exception:
+                        pass
+                    after = snapshot()
+                    if after['stdout'] is not before['stdout']:
+                        ctx.violation('import-restores', {'what': 'after DocTest.run with a global_exec preamble that wraps sys.stdout, sys.stdout is not the stream from before the run',
+                                      'global_exec': GLOBAL_EXEC_WRAP, 'theorem_or_correspondence': 'C12_stdout_restored on DocTest.run (global_exec outside the captured parts)'}, True)
+                    sys.stdout = before['stdout']
         sys.path[:] = real_path0
         # missing file
         before = snapshot()
